@@ -60,6 +60,9 @@ def run(run):
             run.bad("C17.W1", "row-chars", where(prog.bodies[sb_from]), "rows are not built from line.chars() of the lines() items")
     # ---------------- W1b whitespace never becomes a cell
     cb_from = prog.method("from", r"cell_buffer::CellBuffer$", r"From<.*StringBuffer>")
+    if cb_from:
+        # a per-row helper the conversion was split into (`insert_row(y, chars)`) is spliced back
+        prog.inline_single_use_helpers(cb_from, same_file=True, skip=r"::(escape_line|add_css_styles|insert)$")
     if not cb_from:
         run.missing("C17.W1", "From<StringBuffer> for CellBuffer")
     else:
@@ -89,7 +92,7 @@ def run(run):
             if not ok:
                 # the test sits in a helper (`if !Self::is_blank(ch)`): decided through the helper's boolean function
                 from ..common import blank_guard_atoms
-                ok = "ws" in blank_guard_atoms(prog, cb_from, bid)
+                ok = "ws" in blank_guard_atoms(prog, cb_from, bid, ch_expr)
             if ok:
                 run.ok("C17.W1", "cell insert guarded by !ch.is_whitespace() on the inserted char", where(t),
                        "is_whitespace covers space, tab, CR, LF (%d code points)" % WHITESPACE.count())
